@@ -1,7 +1,8 @@
 (** C08 — the premises of the search theorems are satisfiable: a concrete index, target and
     option set on which every field of [SearchPremises] and [Terminates] holds. *)
 From Coq Require Import ZArith List Bool Lia.
-From Geo Require Import Model.EdgeQuery Proofs.C08_Post Proofs.C08_Opt Proofs.C08_Heap Proofs.C08_Main Proofs.C08_Refute.
+From Geo Require Import Model.EdgeQuery Proofs.C05_CellFacts Proofs.C08_Post Proofs.C08_Opt Proofs.C08_Heap Proofs.C08_Main Proofs.C08_Refute
+  Proofs.C08_Cells Proofs.C08_Split Proofs.C08_Term Proofs.C08_Cover Proofs.C08_Approx Proofs.C08_Final.
 Import ListNotations.
 Local Open Scope Z_scope.
 
@@ -42,20 +43,17 @@ Proof.
   - intros ce c e _ Hc _ He. cbn.
     assert (Hi : in_index idx2 e) by (exists c; auto).
     apply ex_in_index in Hi. destruct Hi as [ -> | -> ]; reflexivity.
-  - assert (S1 : split_cell idx2 (2 ^ 58) = []) by (vm_compute; reflexivity).
-    assert (S2 : split_cell idx2 (3 * 2 ^ 58) = []) by (vm_compute; reflexivity).
-    intros q Hq. split.
-    + intros ce H. destruct Hq as [ -> | -> ]; [rewrite S1 in H|rewrite S2 in H]; contradiction.
-    + intros c Hc [[_ H]|(_ & H1 & H2)]; [cbn in H; discriminate|]. exfalso. cbn [fst] in H1, H2.
-      destruct Hq as [ -> | -> ]; destruct Hc as [ <- | [ <- | [] ] ]; cbn [fst] in H1, H2;
-        try (apply H2; reflexivity); vm_compute in H1; discriminate.
+  - intros q Hq (c & Hc & [[_ H]|(_ & H1 & H2)]); [cbn in H; discriminate|]. exfalso. cbn [fst] in H1, H2.
+    destruct Hq as [ -> | -> ]; destruct Hc as [ <- | [ <- | [] ] ]; cbn [fst] in H1, H2;
+      try (apply H2; reflexivity); vm_compute in H1; discriminate.
   - intros H. discriminate.
   - intros e. cbn. unfold dist2. destruct (snd e =? 0); reflexivity.
   - intros lim.
     assert (E : init_entries Z zops ex_target idx2 false lim = [(2 ^ 58, Some [(0, 0)]); (3 * 2 ^ 58, Some [(0, 1)])]).
     { unfold init_entries. destruct (d_eqb zops lim (d_inf zops)); vm_compute; reflexivity. }
     rewrite E. split.
-    + intros ce [ <- | [ <- | [] ] ]; (split; [unfold ex_vq; cbn; auto|]); intros es H e He; injection H as <-;
+    + intros ce [ <- | [ <- | [] ] ]; (split; [unfold ex_vq; cbn; auto|]);
+        (split; [|cbn; discriminate]); intros es H e He; injection H as <-;
         apply ex_in_index; cbn in He; intuition.
     + intros c [ <- | [ <- | [] ] ] _; [exists (2 ^ 58, Some [(0, 0)])|exists (3 * 2 ^ 58, Some [(0, 1)])];
         (split; [cbn; auto|left; split; reflexivity]).
@@ -70,4 +68,44 @@ Proof.
   destruct premises_satisfiable as (P & T & _).
   apply (opt_eq_brute_main Z zops zops_ok ex_opts ex_target idx2 false dist2 (fun _ => 0) ex_vq P T).
   cbn. discriminate.
+Qed.
+
+(** the premises of the discharged theorems (C08_Final) hold on the same instance *)
+Lemma idx2_wf : IndexWF idx2.
+Proof.
+  split.
+  - intros c [ <- | [ <- | [] ] ]; exists 1; (split; [lia|split; [vm_compute; split; reflexivity|vm_compute; reflexivity]]).
+  - unfold idx_sorted. cbn. constructor; [constructor; [constructor|constructor]|].
+    constructor; [vm_compute; reflexivity|constructor].
+Qed.
+
+Lemma ex_cover_finite : CoverFinite Z zops idx2 ex_target dist2.
+Proof.
+  intros lim E.
+  assert (Ee : init_entries Z zops ex_target idx2 false lim = [(2 ^ 58, Some [(0, 0)]); (3 * 2 ^ 58, Some [(0, 1)])]).
+  { unfold init_entries. rewrite E. vm_compute. reflexivity. }
+  rewrite Ee. split; [|split; [|vm_compute; reflexivity]].
+  - intros ce [ <- | [ <- | [] ] ]; (split; [exists 1; split; [lia|split; [vm_compute; split; reflexivity|vm_compute; reflexivity]]|]);
+      (split; [|cbn; discriminate]); intros es H e He; injection H as <-; apply ex_in_index; cbn in He; intuition.
+  - intros c [ <- | [ <- | [] ] ] _; [exists (2 ^ 58, Some [(0, 0)])|exists (3 * 2 ^ 58, Some [(0, 1)])];
+      (split; [cbn; auto|left; split; reflexivity]).
+Qed.
+
+Example wf_premises_satisfiable :
+  WfPremises Z zops idx2 ex_opts ex_target dist2 (fun _ => 0) /\
+  ApxPremises Z zops idx2 ex_opts ex_target dist2 (fun _ => 0) (fun e v => v = dist2 e) false.
+Proof.
+  destruct premises_satisfiable as ([Ex Sl Lb _ Em Zm _ Ix] & _ & _).
+  assert (LBv : LB Z zops idx2 dist2 (fun _ => 0) valid).
+  { intros ce c e _ Hc _ He. cbn. assert (Hi : in_index idx2 e) by (exists c; auto).
+    apply ex_in_index in Hi. destruct Hi as [ -> | -> ]; reflexivity. }
+  split.
+  - split; try assumption. apply ex_cover_finite.
+  - split; try assumption.
+    + intros e lim. cbn. destruct (dist2 e <? lim) eqn:E; [split; [first [exact E|reflexivity]|reflexivity]|first [exact E|reflexivity]].
+    + intros c lim. cbn. destruct (0 <? lim) eqn:E; first [reflexivity|exact E].
+    + intros e v -> . cbn. apply Z.ltb_irrefl.
+    + intros e v h -> H. cbn in *. apply Z.ltb_ge in H. apply Z.ltb_ge. lia.
+    + intros a b H. cbn in *. apply Z.ltb_ge in H. apply Z.ltb_ge. lia.
+    + apply ex_cover_finite.
 Qed.
